@@ -39,10 +39,19 @@ REQUESTS = [
     ('get-unknown-symbol', lambda: ipc.KGRemoteDictGetCall(KGSym('nosuch')), lambda t: t[KGSym('nosuch')]),
     ('get-function', lambda: ipc.KGRemoteDictGetCall(KGSym('add')), lambda t: ('fnref', 2)),
     ('set', lambda: ipc.KGRemoteDictSetCall(KGSym('a'), 5), lambda t: t.__setitem__(KGSym('a'), 5)),
+    # a frame that arrives complete but whose body the receiver cannot unpickle (a class only the sender has, an array
+    # pickled by a newer NumPy): the request has failed, its caller must not be left with silence on an open connection
+    ('call-undecodable-argument', lambda: ipc.KGRemoteFnCall(KGSym('sq'), [_OnlyTheSenderHasIt()]), lambda t: _fail()),
 ]
 DELIVERIES = ['one-by-one', 'one-by-one split in id', 'one-by-one split in length', 'one-by-one split in body', 'burst']
 _CUT = {'one-by-one': 'whole', 'one-by-one split in id': 'in_id', 'one-by-one split in length': 'in_len',
         'one-by-one split in body': 'in_body', 'burst': 'whole'}
+
+
+class _OnlyTheSenderHasIt:
+    def __reduce__(self):
+        import importlib
+        return (importlib.import_module, ('module_only_the_sender_has',))
 
 
 def _fail():
